@@ -226,8 +226,11 @@ Section Transfer.
 End Transfer.
 
 (* ----------------------------------------------------------- instances *)
+(* execution instance: every result is reduced (Qred), otherwise sums over
+   thousands of faces carry exponentially growing denominators *)
 Definition QOps : Ops Q :=
-  mkOps Q 0%Q 1%Q Qplus Qmult Qminus Qopp Qdiv (fun z => inject_Z z).
+  mkOps Q 0%Q 1%Q (fun a b => Qred (Qplus a b)) (fun a b => Qred (Qmult a b))
+        (fun a b => Qred (Qminus a b)) Qopp (fun a b => Qred (Qdiv a b)) (fun z => inject_Z z).
 Definition ZOps : Ops Z :=
   mkOps Z 0 1 Z.add Z.mul Z.sub Z.opp Z.div (fun z => z).
 
